@@ -92,7 +92,6 @@ def _quick_reinit(ctx, p):
         if p.get("close_latency"):
             rig.net.close_latency = p["close_latency"]
             ctx.assume(ts + r != 3.0 + p["close_latency"])
-            ctx.assume(r != p["close_latency"])
         rig.start()
         done = {}
 
@@ -109,7 +108,7 @@ def _quick_reinit(ctx, p):
         detail = {"phase": "quick_reinit", "result": rig.init_result, "model": got, "conns": len(rig.net.conns)}
         ctx.observe("result", rig.init_result)
         ctx.check("at" in done, "nothing_after_shutdown", detail=dict(detail, why="shutdown() did not return"))
-        if initialised and _b(r < (p.get("close_latency") or 0)):
+        if initialised and "at" in done and _b(ts + r < done["at"]):
             # init() was called while shutdown() was still closing the connection: the property speaks of a *later* init();
             # whatever this one returns, the client must not be left open without ever connecting
             again = {}
